@@ -44,8 +44,8 @@ ParseGzip(S) ==
            xlenOK == ~hasx \/ n >= o1 + 2
            xlen == IF hasx /\ xlenOK THEN LE16(S, o1) ELSE 0
            o2 == IF hasx THEN o1 + 2 + xlen ELSE o1
-       IN IF flg >= 32 THEN bad("wrapper")                 \* reserved FLG bits must be zero
-          ELSE IF ~xlenOK \/ n < o2 THEN bad("needmore")
+       IN \* reserved FLG bits (5-7): RFC 1952 asks decompressors to reject them; treated as lenient (either outcome accepted)
+          IF ~xlenOK \/ n < o2 THEN bad("needmore")
           ELSE LET hasn == Bit(flg, 3) = 1
                    z1 == IF hasn THEN FindNul(S, o2 + 1) ELSE o2
                IN IF hasn /\ z1 = 0 THEN bad("needmore")
@@ -58,7 +58,7 @@ ParseGzip(S) ==
                              o5 == IF hash THEN o4 + 2 ELSE o4
                          IN IF n < o5 THEN bad("needmore")
                             ELSE IF hash /\ LE16(S, o4) # Crc32(SubSeq(S, 1, o4))[1] THEN bad("checksum")
-                            ELSE [st |-> "ok", end |-> o5,
+                            ELSE [st |-> "ok", end |-> o5, lenient |-> flg >= 32,
                                   fields |-> [text |-> Bit(flg, 0) = 1, hcrc |-> hash, has_extra |-> hasx, has_name |-> hasn, has_comment |-> hasc,
                                               time |-> LE32(S, 4), xflags |-> S[9], os |-> S[10],
                                               extra |-> IF hasx THEN Slice(S, o1 + 2, xlen) ELSE <<>>,
